@@ -101,8 +101,9 @@ CLAIMS = {
             'traps; theorem C04_jump_conditions: for each of the 44 conditional jumps (the shared arm partially evaluated per opcode) the value handed to brif is '
             'non-zero iff the ISA condition holds; theorem C04_memory_accesses: each of the 22 load / store / atomic-add arms performs the ISA access (kind, width, '
             'effective address, value modulo width, zero-extended result, destination); C04_byte_swaps / C04_wide_load / C04_helper_call_shape: le/be at 16, 32, 64 bits and lddw '
-            'define the ISA value (lddw without intermediate overflow), helper calls are keyed by the unsigned immediate, take r1..r5 and define r0, local calls are refused. '
-            'Block structure (which block brif targets), what a called helper does and Cranelift code generation are not modelled: compiled code is executed '
+            'define the ISA value (lddw without intermediate overflow), helper calls are keyed by the unsigned immediate, take r1..r5 and define r0, local calls are refused; '
+            'C04_jump_blocks / C04_brif_successors: on an accepted program each jump\'s taken successor is the block of the ISA target pc (an instruction start), the other the block of the next pc. '
+            'How blocks are laid out and sealed, what a called helper does and Cranelift code generation are not modelled: compiled code is executed '
             'against the interpreter (= ISA by C01) on the same corpus as C03; programs with local calls must be refused (ERR) by compilation. This search found that '
             'every 64-bit conditional jump was compiled as its 32-bit variant (fixed: 742bb11).',
             'IR semantics hand-modelled; IR -> machine code trusted; block structure by differential execution.'),
@@ -117,7 +118,8 @@ CLAIMS = {
     'C12': ('proof', 'PARTIAL. Theorems C12_jit_jump_targets / C12_jit_call_targets: for every program accepted by the (regenerated) verifier, the target that the x86-64 JIT '
             'records for each jump and local call (expression regenerated from jit.rs) is an instruction start of the program, so resolve_jumps\' indexing '
             'pc_locs[target as usize] is inside the nslots+1 entries allocated and hits a filled entry; C12_register_map: the register map is injective and avoids '
-            'RCX/R10/R11/RSP. The byte emission / two-pass sizing and all of Cranelift are not modelled: verifier-accepted corpora (random well-formed streams, every '
+            'RCX/R10/R11/RSP; C12_cranelift_blocks_registered / C12_cranelift_targets_total: Cranelift registers blocks for exactly the instructions whose arm looks one up (every jump, '
+            'exit, tail call) and on an accepted program the target pc conversion never panics. The byte emission / two-pass sizing and Cranelift\'s builder are not modelled: verifier-accepted corpora (random well-formed streams, every '
             'opcode with extreme operands, up to 70000 instructions quick / 999999 thorough, far jumps, 3 helper sets) are compiled twice by both compilers in a child '
             'process and must give OK or ERR both times. This search found the Cranelift jump-to-first-instruction panic (fixed: a516a8e).',
             'Only the bookkeeping logic is proved; panics / overruns elsewhere are searched for, not excluded.'),
